@@ -597,10 +597,129 @@ func (t *fnTrans) call(in ssa.Instruction, cc *ssa.CallCommon, res ssa.Value) {
 	}
 	// function value
 	if mc, ok := t.closures[cc.Value]; ok {
+		if c, ok := t.fnCandidate(mc, cc); ok {
+			t.moduleCall(in, c.fn, c.cc, res, c.mc)
+			return
+		}
 		t.moduleCall(in, mc.Fn.(*ssa.Function), cc, res, mc)
 		return
 	}
+	if cands := t.fnCandidates(cc.Value, cc, 0); len(cands) > 0 {
+		t.multiCall(in, cc, res, cands)
+		return
+	}
 	t.unknownCall(in, cc, res)
+}
+
+// A call through a function value whose every possible source is a closure, bound method or
+// function of the module (a phi of such values) is a choice between those callees.
+type fnCand struct {
+	fn  *ssa.Function
+	cc  *ssa.CallCommon
+	mc  *ssa.MakeClosure
+	tag string
+}
+
+// fnCandidate: the callee behind one MakeClosure; bound-method wrappers are replaced by the method itself.
+func (t *fnTrans) fnCandidate(mc *ssa.MakeClosure, cc *ssa.CallCommon) (fnCand, bool) {
+	fn := mc.Fn.(*ssa.Function)
+	tag := nameTag("fn:" + t.g.fnKey(fn))
+	if strings.HasSuffix(fn.Name(), "$bound") && len(mc.Bindings) == 1 {
+		for _, b := range fn.Blocks {
+			for _, in := range b.Instrs {
+				if c, ok := in.(*ssa.Call); ok {
+					if m := c.Common().StaticCallee(); m != nil && t.g.fnInModule(m) && len(m.Blocks) > 0 {
+						cc2 := &ssa.CallCommon{Value: m, Args: append([]ssa.Value{mc.Bindings[0]}, cc.Args...)}
+						return fnCand{fn: m, cc: cc2, tag: tag}, true
+					}
+				}
+			}
+		}
+		return fnCand{}, false
+	}
+	if !t.g.fnInModule(fn) || len(fn.Blocks) == 0 {
+		return fnCand{}, false
+	}
+	return fnCand{fn: fn, cc: cc, mc: mc, tag: tag}, true
+}
+
+func (t *fnTrans) fnCandidates(v ssa.Value, cc *ssa.CallCommon, depth int) []fnCand {
+	if depth > 4 {
+		return nil
+	}
+	switch x := v.(type) {
+	case *ssa.MakeClosure:
+		if c, ok := t.fnCandidate(x, cc); ok {
+			return []fnCand{c}
+		}
+	case *ssa.Function:
+		if t.g.fnInModule(x) && len(x.Blocks) > 0 {
+			cc2 := &ssa.CallCommon{Value: x, Args: cc.Args}
+			return []fnCand{{fn: x, cc: cc2, tag: nameTag("fn:" + t.g.fnKey(x))}}
+		}
+	case *ssa.Phi:
+		var out []fnCand
+		seen := map[string]bool{}
+		for _, e := range x.Edges {
+			cs := t.fnCandidates(e, cc, depth+1)
+			if len(cs) == 0 {
+				return nil
+			}
+			for _, c := range cs {
+				if !seen[c.tag] {
+					seen[c.tag] = true
+					out = append(out, c)
+				}
+			}
+		}
+		return out
+	}
+	return nil
+}
+
+func (t *fnTrans) multiCall(in ssa.Instruction, cc *ssa.CallCommon, res ssa.Value, cands []fnCand) {
+	pre := t.cur
+	pre.frozen = true
+	v := t.val(cc.Value)
+	var outs []*State
+	var conds, reaches []string
+	var results [][]string
+	for _, c := range cands {
+		t.cur = t.h.child(pre)
+		cond := "(= (fnid " + v + ") " + c.tag + ")"
+		t.assume(cond)
+		t.moduleCall(in, c.fn, c.cc, res, c.mc)
+		outs = append(outs, t.cur)
+		conds = append(conds, cond)
+		reaches = append(reaches, t.cur.reach)
+		if res != nil {
+			results = append(results, append([]string{}, t.vals[res]...))
+		}
+	}
+	if len(outs) == 1 {
+		return
+	}
+	rn := t.c.define(t.c.fresh("R@fn"), "Bool", or(reaches...))
+	t.cur = t.h.child(t.h.join(outs, conds, rn))
+	if res != nil && len(results) > 0 {
+		n := len(results[0])
+		merged := make([]string, n)
+		for i := 0; i < n; i++ {
+			body := results[len(results)-1][i]
+			for k := len(results) - 2; k >= 0; k-- {
+				if len(results[k]) != n {
+					return
+				}
+				body = ite(conds[k], results[k][i], body)
+			}
+			srt := t.sortOf(res.Type())
+			if tu, ok := res.Type().(*types.Tuple); ok {
+				srt = t.sortOf(tu.At(i).Type())
+			}
+			merged[i] = t.c.define(t.c.fresh(nameOf(res, "r")), srt, body)
+		}
+		t.vals[res] = merged
+	}
 }
 
 func nameOf(v ssa.Value, d string) string {
